@@ -53,7 +53,7 @@ def items(tier, seed):
         for n in L:
             out.append(("magic", fmt, n, tier))
     # Mach-O with exactly one load command of <= 16 bytes declared: the command type and size stay symbolic
-    for csz in (0, 8, None):
+    for csz in (0, 8, 24):
         out.append(("focus", "macho64", 56, "one-load-command", csz, tier))
         out.append(("focus", "macho32", 52, "one-load-command", csz, tier))
     return out
@@ -111,6 +111,12 @@ def magic_implied(name, content):
 
 
 def run_item(item):
+    # a path that makes the parser allocate without bound must end (MemoryError is then the reported outcome)
+    try:
+        import resource
+        resource.setrlimit(resource.RLIMIT_AS, (8 << 30, 8 << 30))
+    except Exception:
+        pass
     res = {"states": 0, "transitions": 0, "obligations": 0, "discharged": 0, "inconclusive": 0, "incomplete_explorations": 0,
            "violations": [], "samples": [], "traces_validated_against_impl": 0, "explorations": 0, "outcomes": {}, "budget_paths": 0, "capped_sites": 0}
     if item[0] == "free":
